@@ -408,7 +408,7 @@ class PythonExporter(Exporter):
         code = f"{representation.import_statement()}\n\n"
         if isinstance(instance, Engine):
             code += f"""\
-class {Op.pascal_case(instance.name)}:
+class {Op.as_identifier(Op.pascal_case(instance.name))}:
     def __init__(self) -> None:
         self.engine = {repr(instance)}
 """
